@@ -64,8 +64,6 @@ def judge(ctx, binp, item, r, st, label, profile):
             return ctx.known_or_violation('filter-size-assert', text, replay)
         if profile == 'debug' and re.search(r"filter/mod\.rs:24[345]$", at):
             return ctx.known_or_violation('f32-bound-debug-assert', text, replay)
-        if profile == 'debug' and re.search(r"filter/turbulence\.rs:(234|239)$", at) and 'overflow' in r['panic']:
-            return ctx.known_or_violation('turbulence-frequency-overflow', text, replay)
         if profile == 'debug' and at.endswith('filter/box_blur.rs:48'):
             return ctx.known_or_violation('blur-sigma-overflow', text, replay)
         ctx.violation(text, replay)
@@ -248,7 +246,7 @@ def run(ctx):
 
     # ------------------------------------------------------------------ S: regression inputs of fixed defects + witnesses of known ones
     wdir = os.path.join(vlib.VERIF, 'corpus', 'witness')
-    fixed = ['F06.svg', 'morph-radius.svg', 'offset-huge.svg', 'region-overflow.svg']
+    fixed = ['F06.svg', 'morph-radius.svg', 'offset-huge.svg', 'region-overflow.svg', 'turbulence-frequency.svg']
     items = [('@' + os.path.join(wdir, f), 100, 100, (1, 0, 0, 1, 0, 0)) for f in fixed if os.path.exists(os.path.join(wdir, f))]
     dbin, dlog = ctx.harness('debug')
     for prof, b in (('release', binp), ('debug', dbin)):
